@@ -86,6 +86,14 @@ def parseIntLit (b : Bytes) : Option Int :=
   | 43 :: r => (parseNatDec r).map Int.ofNat
   | r => (parseNatDec r).map Int.ofNat
 
+/-- `strconv.ParseInt(s, 0, 0)` on a decimal literal: out of the `int64` range is an error. -/
+def parseInt64Lit (b : Bytes) : Option Int :=
+  (parseIntLit b).bind (fun r => if -9223372036854775808 ≤ r ∧ r ≤ 9223372036854775807 then some r else none)
+
+/-- `strconv.ParseUint(s, 0, 0)` on a decimal literal: a sign or a value beyond `uint64` is an error. -/
+def parseUint64Lit (b : Bytes) : Option Int :=
+  (parseIntLit b).bind (fun r => if 0 ≤ r ∧ r ≤ 18446744073709551615 then some r else none)
+
 def parseBoolLit (b : Bytes) : Option Bool :=
   if b == lit "true" || b == lit "1" || b == lit "t" || b == lit "T" || b == lit "TRUE" || b == lit "True" then some true
   else if b == lit "false" || b == lit "0" || b == lit "f" || b == lit "F" || b == lit "FALSE" || b == lit "False" then some false
@@ -114,10 +122,8 @@ def bytesCmp : Bytes → Bytes → Ordering
     outside the model's literal class. -/
 def Val.cmpLit (v : Val) (o : Op) (right : Bytes) : Option Bool :=
   match v with
-  | .int a => (parseIntLit right).map (fun r => cmpOrd o (compare a r))
-  | .uint a => match parseIntLit right with
-    | some r => if r < 0 then none else some (cmpOrd o (compare (Int.ofNat a) r))
-    | none => none
+  | .int a => (parseInt64Lit right).map (fun r => cmpOrd o (compare a r))
+  | .uint a => (parseUint64Lit right).map (fun r => cmpOrd o (compare (Int.ofNat a) r))
   | .float t => match parseDec t, parseDec right with
     | some a, some r => some (cmpOrd o (a.cmp r))
     | _, _ => none
@@ -167,6 +173,24 @@ def insGet (k : InsKind) (v : Val) (path : List Bytes) : Val :=
       | none => .nil
     | _, _ => .nil
   | .obj => getPathObj v path
+
+/-- The code-generated inspectors parse a slice index with `strconv.ParseInt` and the strings inspector with
+    `strconv.Atoi`, and hand the error back: `true` = `GetTo` fails on this path (a chunk that should be an
+    index is not a number — e.g. the empty chunk `a[k].b` leaves when `k` is unset). -/
+def pathIdxErr : Val → List Bytes → Bool
+  | .obj fs, p :: ps => match lookupField p fs with
+    | some v' => pathIdxErr v' ps
+    | none => false
+  | .list _, p :: _ => (parseNatDec p).isNone
+  | _, _ => false
+
+def insGetErr (k : InsKind) (v : Val) (path : List Bytes) : Bool :=
+  match k with
+  | .static => false
+  | .strings => match v, path with
+    | .strs _, [p] => (parseNatDec p).isNone
+    | _, _ => false
+  | .obj => pathIdxErr v path
 
 /-- `Inspector.Compare`. -/
 def insCompare (k : InsKind) (v : Val) (path : List Bytes) (o : Op) (right : Bytes) : Option Bool :=
